@@ -16,6 +16,8 @@ RULE = ('random grammars with 2-4 common, 2-4 match (single token, multi token, 
         'rule; accept/dump equality with the reference (abstract result selection); textx_isinstance(o, R) for every object x '
         'every rule + OBJECT vs the reference closure. distinct = (grammar skeleton, input token kinds); non-trivial = the '
         'derivation passes through an abstract rule whose matched alternative is a sequence or another abstract rule')
+# (seed, replay record) of cases that showed a defect once; replayed in every run
+REGRESSIONS = [(0, {'i': 9779})]      # cyclic-abstract-stale-inheritance (found by the thorough tier)
 REQUIRED = {'grammars': 100, 'kinds_checked': 500, 'isinstance_pairs': 5000, 'abstract_results_observed': 500,
             'abstract_cycles': 5, 'match_before_common_alternatives': 5, 'objects_checked': 1000,
             'abstract_reference_in_sequence_alternatives': 20}
